@@ -27,7 +27,9 @@ Local Open Scope Z_scope.
 
 (* ---- values ------------------------------------------------------------------------------ *)
 
-Inductive vtag : Set := Def | Hi32 | NaNp | Ptr | Opaque.
+Inductive vtag : Set := Def | Hi32 | NaNp | Ptr | Opaque
+| LDt.   (* a long double: the bits are the 80-bit x87 pattern; lives in registers only (conversions from/to
+            integers and doubles, ldmov, ld arithmetic) - never stored, passed, returned or compared *)
 
 Record value : Set := V { v_bits : Z; v_tag : vtag }.
 
@@ -552,6 +554,46 @@ Definition exec_insn (s : state) (f : frame) (i : insn) : step_result :=
                    do fm <- write_op s f dst v;
                    Ok (upd_top s (next_pc (fst fm)) (snd fm)
                                (if keep_flags_mov ops then st_flags s else None)))
+          (* long double values (register to register only) *)
+          | LDMOV, [Oreg d; Oreg r] =>
+              ret (do v <- get_reg (fr_regs f) r;
+                   match v_tag v with
+                   | LDt => Ok (upd_top s (next_pc (set_reg f d v)) (st_mem s) None)
+                   | _ => Er E_tag
+                   end)
+          | (I2LD | UI2LD | F2LD | D2LD), [Oreg d; src] =>
+              ret (do v <- read_op s (fr_regs f) src;
+                   match v_tag v with
+                   | Def =>
+                       do z <- use_as (match o with F2LD => KF | D2LD => KD | _ => K64 end) v;
+                       do r <- of_opt E_undef_insn (sem_val isem o [z]);
+                       Ok (upd_top s (next_pc (set_reg f d (V r LDt))) (st_mem s) None)
+                   | _ => Er E_tag
+                   end)
+          | (LD2I | LD2F | LD2D), [dst; Oreg r] =>
+              ret (do v <- get_reg (fr_regs f) r;
+                   match v_tag v with
+                   | LDt =>
+                       do z <- of_opt E_undef_insn (sem_val isem o [v_bits v]);
+                       do fm <- write_op s f dst (mk_result (match o with LD2F => KF | LD2D => KD | _ => K64 end) z);
+                       Ok (upd_top s (next_pc (fst fm)) (snd fm) None)
+                   | _ => Er E_tag
+                   end)
+          | LDNEG, [Oreg d; Oreg a] =>
+              ret (do v <- get_reg (fr_regs f) a;
+                   match v_tag v with
+                   | LDt => do r <- of_opt E_undef_insn (sem_val isem o [v_bits v]);
+                            Ok (upd_top s (next_pc (set_reg f d (V r LDt))) (st_mem s) None)
+                   | _ => Er E_tag
+                   end)
+          | (LDADD | LDSUB | LDMUL), [Oreg d; Oreg a; Oreg b] =>
+              ret (do va <- get_reg (fr_regs f) a;
+                   do vb <- get_reg (fr_regs f) b;
+                   match v_tag va, v_tag vb with
+                   | LDt, LDt => do r <- of_opt E_undef_insn (sem_val isem o [v_bits va; v_bits vb]);
+                                 Ok (upd_top s (next_pc (set_reg f d (V r LDt))) (st_mem s) None)
+                   | _, _ => Er E_tag
+                   end)
           | JMP, [Olabel l] => ret (do f' <- goto f l; Ok (upd_top s f' (st_mem s) None))
           | (BO | BNO | UBO | UBNO), [Olabel l] =>
               ret (do fl <- of_opt E_flags (st_flags s);
